@@ -14,7 +14,10 @@ CHECK = dict(
              "client calls - RegClient.BlobCopy, BlobPut from seekable / unseekable / failing-seek / streamed sources, BlobGet read to the end / closed "
              "early / closed by another goroutine, BlobHead, ManifestGet/Head/Put, TagList, ReferrerList - against 1-3 model registries (reqConcurrent "
              "-1/0/1/2/3, mirrors) and an OCI layout, with 0-4 generated faults (status 5xx/429/408/4xx, reset before/after, truncated bodies), some calls "
-             "cancelled before or at a request. Non-trivial (engine 1) = the execution contained a cancellation racing with a release on the same queue (both enabled at one step, a "
+             "cancelled before or at a request; engine 4 runs `regsync once` (in-package, NewRootCmd) with generated configs: 1-4 image/repository steps, "
+             "parallel 0-3, ratelimit.min per entry or in defaults with a source whose manifest HEADs report RateLimit-Remaining above/below the minimum "
+             "per a generated plan (release / sleep / re-acquire path; rateLimitRetryMin lowered from 5 min to 2 ms), a refresh answered 404, "
+             "--abort-on-error, context cancelled at the k-th request; oracle: the command returns and rootOpts.throttle has `parallel` free slots. Non-trivial (engine 1) = the execution contained a cancellation racing with a release on the same queue (both enabled at one step, a "
              "select with both channels ready, or a slot handed to an already cancelled waiter) or an AcquireMulti over >=2 queues that met contention (a "
              "TryAcquire refused -> rollback, or blocked on its first queue); (engine 2) = a blocked waiter was really cancelled or two workers multi-acquire "
              "intersecting sets; (engine 3) = two or more live copies share a limited host. Distinct by the whole case.",
@@ -24,7 +27,11 @@ CHECK = dict(
                     race=dict(quick=False, thorough=True), shrinktime="10s"),
               # copy: thorough runs under the race detector (the data race it first reported in reghttp's sortHostsCmp
               # was repaired in /repo by 2a8301e)
-              rapid("copy", "TestVerifCopy", 1_200, 40_000, sq=8, st=16, race=dict(quick=False, thorough=True), shrinktime="10s")],
+              rapid("copy", "TestVerifCopy", 1_200, 40_000, sq=8, st=16, race=dict(quick=False, thorough=True), shrinktime="10s"),
+              # engine 4: `regsync once` through NewRootCmd (in-package test of cmd/regsync, build tag c17)
+              plain("syncreplay", "TestVerifC17SyncReplayDir", pkgdir="cmd/regsync", tags="verif,c17"),
+              rapid("sync", "TestVerifC17Sync", 600, 20_000, sq=4, st=16, pkgdir="cmd/regsync", tags="verif,c17",
+                    race=dict(quick=False, thorough=True), shrinktime="10s")],
         technique="property-based testing (rapid) of generated worker programs under (1) a schedule controller that owns every interleaving "
                   "point of internal/pqueue through build-tag hooks and (2) free-running goroutines with the race detector; oracles: "
                   "harness-side holder count, quiescence analysis (lost wake-up / deadlock), acquire result rules, final drain test",
